@@ -17,7 +17,8 @@ vars == <<l, tally>>
 Obs == ndJsonDeserialize(ObsFile)
 EitherFaults == {"refhash", "refhashslash", "refdefsempty", "defaultemptykey", "badgotype"}
 \* scenarios whose successful output is, by construction, not valid Go: "complete" means written, not parsable
-Unparsable(sc) == \E k \in DOMAIN sc.args : sc.args[k].fault = "badgotype"
+\* (byte-level mutations of a valid schema can produce names or texts whose emitted code is not valid Go either)
+Unparsable(sc) == sc.flags = "bytes" \/ \E k \in DOMAIN sc.args : sc.args[k].fault = "badgotype"
 
 AnyBad(sc) == sc.flags # "ok" \/ \E k \in DOMAIN sc.args : sc.args[k].status = "bad" /\ sc.args[k].fault \notin EitherFaults
 AllOk(sc)  == sc.flags = "ok" /\ \A k \in DOMAIN sc.args : sc.args[k].status = "ok"
